@@ -31,6 +31,7 @@ def check(ctx):
     ctx.doc('R3', 'the free-energy graph wraps neighbour voxels modulo the grid shape')
     ctx.doc('R4', 'the neighbour move set is symmetric under the cubic point group (all 6 / 26 neighbours)')
     ctx.doc('R5', 'relabelling atoms: the per-atom event scan resets its state for every atom (no result depends on which atom is scanned next)')
+    ctx.doc('R6', 'reordering sites: helpers that number the site labels derive the list of unique labels identically (state names do not depend on the site order)')
     ctx.floor('R1', 4)
     ctx.floor('R2', 8, 'reads of wrapped positions outside trajectory.py')
     scan = [it for it in ctx.package_scan()]
@@ -112,3 +113,5 @@ def check(ctx):
     # ---- R5 atom permutation: per-atom scans do not carry state from one atom to the next
     from .C04 import check_scanner_state
     check_scanner_state(ctx, 'R5')
+    from .C11 import check_label_numbering
+    check_label_numbering(ctx, 'R6')
